@@ -38,12 +38,13 @@ def spec_window(frame, c, p, h=None, w=None):
     return np.array(out, dtype=frame.dtype).reshape(h, w)
 
 
-def real_crops(frame, c, peaks, backend, dtype, h=None, w=None, sparse_frame=False, extra_slots=0):
+def real_crops(frame, c, peaks, backend, dtype, h=None, w=None, sparse_frame=False, extra_slots=0, peaks_dtype="int64"):
     h = 2 * c if h is None else h
     w = 2 * c if w is None else w
     buf = np.full((len(peaks) + extra_slots, h, w), SENT, dtype=dtype)
     fr = frame.astype(dtype)
-    pk = np.asarray(peaks, dtype=np.int64).reshape(-1, 2)
+    # the container the integer peaks arrive in (centers buffers of the UDFs are uint16, user code passes what it has)
+    pk = np.asarray(peaks, dtype=np.int64).reshape(-1, 2).astype(peaks_dtype)
     if backend == "pixel":
         bc.crop_disks_from_frame(pk, fr, c, buf)
     else:
@@ -187,7 +188,8 @@ def run_case(kind, params):
     for be in ("pixel", "slicing"):
         try:
             res[be] = real_crops(frame, c, peaks, be, dt, sparse_frame=bool(params.get("sparse")),
-                                 extra_slots=int(params.get("extra_slots", 0)))
+                                 extra_slots=int(params.get("extra_slots", 0)),
+                                 peaks_dtype=params.get("peaks_dtype", "int64"))
         except Exception as e:
             msgs.append(f"{be} back-end raised {type(e).__name__}: {e}")
     fr = frame.astype(dt)
@@ -273,6 +275,22 @@ def search(ctx, boost=1, focus=()):
             continue
         cases.append({"frame": rng.integers(1, 60000, (fy, fx)), "c": c, "peaks": peaks,
                       "dtype": dts[k % len(dts)], "sparse": k % 5 == 0, "extra_slots": int(rng.integers(1, 4)) if k % 4 == 1 else 0})
+    # the same integer peaks held in other integer containers (unsigned ones included: a peak next to the top / left border has
+    # a window origin below zero, which the container type cannot hold)
+    pdts = ("uint16", "uint8", "uint32", "uint64", "int16", "int32", "int8")
+    for k in range((60 if ctx.tier == "thorough" else 24) * boost):
+        pdt = np.dtype(pdts[k % len(pdts)])
+        info = np.iinfo(pdt)
+        fy, fx = (int(v) for v in rng.integers(1, 40, 2))
+        c = int(rng.integers(1, 10))
+        lo_y, hi_y = max(info.min, -2 * c - 1), min(info.max, fy + 2 * c + 1)
+        lo_x, hi_x = max(info.min, -2 * c - 1), min(info.max, fx + 2 * c + 1)
+        peaks = [(int(rng.integers(lo_y, hi_y + 1)), int(rng.integers(lo_x, hi_x + 1))) for _ in range(int(rng.integers(1, 5)))]
+        peaks += [(max(lo_y, 0), int(rng.integers(0, fx))), (int(rng.integers(0, fy)), max(lo_x, 0)),
+                  (min(c - 1, fy - 1), min(c - 1, fx - 1))]
+        cases.append({"frame": rng.integers(1, 60000, (fy, fx)), "c": c, "peaks": peaks, "dtype": dts[k % 3],
+                      "sparse": k % 4 == 0, "peaks_dtype": pdt.name})
+        ctx.count("peaks_in_" + pdt.name)
     for params in cases:
         msgs = run_case("crop", params)
         fr = params["frame"]
